@@ -1159,9 +1159,11 @@ def check_C19(rep, tier, seed, replay):
 PROP_THEOREMS = {
     "C03": ["C03_decoder_tables_are_rfc_tables", "C03_stored_block_streams_decode_partial"],
     "C04": ["C04_bad_zlib_header_never_accepted", "C04_rejected_iff_rfc_invalid"],
-    "C05": ["C05_bad_geometry_is_param_error", "C05_failure_is_absorbing", "C05_counts_within_bounds"],
-    "C06": ["C06_undo_leaves_less_than_a_byte"],
-    "C07": ["C07_read_bits_resume_partial"],
+    "C05": ["C05_bad_geometry_is_param_error", "C05_failure_is_absorbing", "C05_counts_within_bounds",
+            "C05_returns_on_stored_streams_partial"],
+    "C06": ["C06_undo_leaves_less_than_a_byte", "C06_stored_streams_consumed_exactly_partial"],
+    "C07": ["C07_read_bits_resume_partial", "C07_stored_streams_any_input_split_partial",
+            "C07_stored_streams_any_schedule_partial"],
     "C08": ["C08_window_and_truthful_status", "C08_bad_geometry_untouched"],
     "C13": ["C13_full_flush_is_stream_error", "C13_errors_are_sticky", "C13_nonfinish_after_finish",
             "C13_counts_within_offered_buffers", "C13_wf_of_constructors"],
